@@ -49,23 +49,64 @@ use std::sync::atomic::{AtomicUsize, Ordering};
 use std::sync::{Arc, Mutex, MutexGuard};
 pub use traits::*;
 
-fn to_line_col(pos: &lsp_types::Position) -> LineCol {
+/// The protocol counts the columns of a line in UTF-16 code units, the server counts them in characters. That is the
+/// same thing until there is a character outside of the basic multilingual plane (an emoji in a comment) on the line.
+/// (A column beyond the end of the line stays as far beyond the end of the line as it was.)
+fn to_utf16_column(line: &str, column: usize) -> u32 {
+    let mut units = 0;
+    let mut chars = 0;
+    for c in line.chars().take(column) {
+        units += c.len_utf16();
+        chars += 1;
+    }
+    (units + (column - chars)) as u32
+}
+
+fn from_utf16_column(line: &str, character: u32) -> usize {
+    let character = character as usize;
+    let mut units = 0;
+    for (column, c) in line.chars().enumerate() {
+        if units >= character {
+            return column;
+        }
+        units += c.len_utf16();
+    }
+    line.chars().count() + character.saturating_sub(units)
+}
+
+/// The column of a position in a certain file, in characters
+fn to_char_column(file: Option<&mos_core::parser::code_map::File>, pos: &lsp_types::Position) -> usize {
+    match file {
+        Some(file) if (pos.line as usize) < file.num_lines() => {
+            from_utf16_column(file.source_line(pos.line as usize), pos.character)
+        }
+        _ => pos.character as usize,
+    }
+}
+
+fn to_line_col(tree: &ParseTree, path: &Path, pos: &lsp_types::Position) -> LineCol {
     LineCol {
         line: pos.line as usize,
-        column: pos.character as usize,
+        column: to_char_column(tree.files.get(path).map(|f| f.file.as_ref()), pos),
+    }
+}
+
+fn to_position(file: &mos_core::parser::code_map::File, lc: &LineCol) -> lsp_types::Position {
+    let character = if lc.line < file.num_lines() {
+        to_utf16_column(file.source_line(lc.line), lc.column)
+    } else {
+        lc.column as u32
+    };
+    lsp_types::Position {
+        line: lc.line as u32,
+        character,
     }
 }
 
 fn to_range(s: SpanLoc) -> lsp_types::Range {
     lsp_types::Range {
-        start: lsp_types::Position {
-            line: s.begin.line as u32,
-            character: s.begin.column as u32,
-        },
-        end: lsp_types::Position {
-            line: s.end.line as u32,
-            character: s.end.column as u32,
-        },
+        start: to_position(&s.file, &s.begin),
+        end: to_position(&s.file, &s.end),
     }
 }
 
@@ -348,10 +389,9 @@ impl LspContext {
         analysis: &'a Analysis,
         pos: &'a TextDocumentPositionParams,
     ) -> Vec<(&'a DefinitionType, &'a Definition)> {
-        analysis.find(
-            pos.text_document.uri.to_file_path().unwrap(),
-            to_line_col(&pos.position),
-        )
+        let path = pos.text_document.uri.to_file_path().unwrap();
+        let line_col = to_line_col(&analysis.tree(), &path, &pos.position);
+        analysis.find(path, line_col)
     }
 }
 
